@@ -8,7 +8,7 @@ import Panacea.Model.KV
 what is written here is believed to be what Go does.
 
 * a Go function is a Lean function into `P` (pure: a value or a runtime panic) or into
-  `M = StateT World P` (keepers: additionally reads and writes the KV stores of the block context);
+  `World → P (result × World)` (keepers: additionally read and write the KV stores of the block context, passed explicitly);
 * Go `error` is `Err = Option Error` (`nil` = `none`); errors are *values*, exactly as in Go, so
   `x, err := f(); if err != nil { return …, wrap(err) }` is translated literally;
 * `int`, `int64` are `Int` (no overflow is modelled for them: they hold lengths and indices);
@@ -159,10 +159,6 @@ def World.setStore (w : World) (name : String) (m : Map Bytes) : World :=
     { w with stores := w.stores.map fun e => if e.1 = name then (name, m) else e }
   else { w with stores := w.stores ++ [(name, m)] }
 
-abbrev M := StateT World P
-
-def liftP {α} (x : P α) : M α := fun w => match x with | .ok a => .ok (a, w) | .panic s => .panic s
-
 /-- `prefix.NewStore(ctx.KVStore(key), pfx)` -/
 structure Store where
   name : String
@@ -172,25 +168,23 @@ structure Store where
 def kvStore (name : String) : Store := { name := name, pfx := [] }
 def prefixStore (s : Store) (p : Bytes) : Store := { s with pfx := s.pfx ++ p }
 
-/-- `store.Get(k)`: `nil` (`[]`) when absent.  (A stored empty value cannot be told from absence, as in
-Go with `len(bz) == 0` checks; the code base never stores empty values: every value is a protobuf
-message with at least the possibility of being empty — see `Has` for existence.) -/
-def Store.get (s : Store) (k : Bytes) : M Bytes := fun w =>
-  .ok (((w.store s.name).get (s.pfx ++ k)).getD [], w)
-def Store.has (s : Store) (k : Bytes) : M Bool := fun w => .ok ((w.store s.name).has (s.pfx ++ k), w)
+/-- `store.Get(k)`: `nil` (`[]`) when absent (a stored empty value cannot be told from absence by `Get`;
+`Has` can). -/
+def Store.get (s : Store) (k : Bytes) (w : World) : Bytes := ((w.store s.name).get (s.pfx ++ k)).getD []
+def Store.has (s : Store) (k : Bytes) (w : World) : Bool := (w.store s.name).has (s.pfx ++ k)
 /-- `store.Set(k, v)`: the SDK panics on a nil/empty key and on a nil value (`types.AssertValidKey/Value`);
 an empty non-nil value is allowed, and `MustMarshal` never returns nil. -/
-def Store.set (s : Store) (k v : Bytes) : M Unit := fun w =>
+def Store.set (s : Store) (k v : Bytes) (w : World) : P World :=
   if s.pfx ++ k = [] then .panic "store.Set: key is nil" else
-  .ok ((), w.setStore s.name ((w.store s.name).set (s.pfx ++ k) v))
-def Store.delete (s : Store) (k : Bytes) : M Unit := fun w =>
+  .ok (w.setStore s.name ((w.store s.name).set (s.pfx ++ k) v))
+def Store.delete (s : Store) (k : Bytes) (w : World) : P World :=
   if s.pfx ++ k = [] then .panic "store.Delete: key is nil" else
-  .ok ((), w.setStore s.name ((w.store s.name).del (s.pfx ++ k)))
+  .ok (w.setStore s.name ((w.store s.name).del (s.pfx ++ k)))
 /-- `sdk.KVStorePrefixIterator(store, p)` materialised: entries in key order, keys relative to the store. -/
-def Store.iterate (s : Store) (p : Bytes) : M (List (Bytes × Bytes)) := fun w =>
-  .ok ((w.store s.name).prefixView (s.pfx ++ p) |>.map (fun e => (p ++ e.1, e.2)), w)
+def Store.iterate (s : Store) (p : Bytes) (w : World) : List (Bytes × Bytes) :=
+  (w.store s.name).prefixView (s.pfx ++ p) |>.map (fun e => (p ++ e.1, e.2))
 
-def blockTimeUnixNano : M Int := fun w => .ok (w.blockTimeNano, w)
+def blockTimeUnixNano (w : World) : Int := w.blockTimeNano
 
 /-! ## protobuf binary codec — a parameter with laws, never an axiom -/
 class Proto (α : Type) where
